@@ -1,4 +1,5 @@
 #include "model.hpp"
+#include <cstdlib>
 
 #include <algorithm>
 #include <cmath>
@@ -68,7 +69,10 @@ sim::Json GenOpts::to_json() const {
     j["fmtout"] = fmtout; j["unifout"] = unifout; j["esmry"] = esmry; j["rptonly"] = rptonly; j["sumthin"] = sumthin; j["date_conditions"] = date_conditions; j["nested_parens"] = nested_parens; j["stop_safe"] = stop_safe; j["weltarg_safe"] = weltarg_safe; j["cond_well_bias"] = cond_well_bias; j["min_wells"] = min_wells; j["reparent_groups"] = reparent_groups; j["late_edits"] = late_edits; j["geo_kws"] = geo_kws; j["udq_unary_minus"] = udq_unary_minus;
     return j;
 }
-GenOpts GenOpts::from_json(const Json& j) {
+GenOpts GenOpts::from_json(const Json& j0) {
+    // development aid: VERIF_GEN_OVERRIDE='{"late_edits":true}' overrides knobs of every plan (never set by the registered commands)
+    Json j = j0;
+    if (const char* e = getenv("VERIF_GEN_OVERRIDE")) { Json ov = Json::parse(e); for (auto& kv : ov.o) j[kv.first] = kv.second; }
     GenOpts o;
     o.max_wells = static_cast<int>(j.geti("max_wells", o.max_wells)); o.max_steps = static_cast<int>(j.geti("max_steps", o.max_steps));
     o.max_actions = static_cast<int>(j.geti("max_actions", o.max_actions)); o.max_udq = static_cast<int>(j.geti("max_udq", o.max_udq));
@@ -396,7 +400,7 @@ struct Gen {
                     if (v < 0.3) { k.name = "WPIMULT"; k.recs.push_back({q(w.name), num(std::round(rng.real(0.25, 2.5) * 100) / 100)}); if (rng.chance(0.4)) { k.recs.back().push_back("2*"); k.recs.back().push_back(std::to_string(static_cast<int>(rng.range(w.k1, w.k2)))); } }
                     else if (v < 0.55 && w.msw) { k.name = "WSEGVALV"; const int nseg = w.k2 - w.k1 + 2; const int nrec = static_cast<int>(rng.range(1, 2));
                         for (int r2 = 0; r2 < nrec; ++r2) k.recs.push_back({q(w.name), std::to_string(static_cast<int>(rng.range(2, nseg))), num(std::round(rng.real(0.4, 0.95) * 100) / 100), num(0.785 * diam * diam * std::round(rng.real(0.1, 0.9) * 16) / 16)}); }
-                    else if (v < 0.75) { k.name = "COMPDAT"; const int kk = static_cast<int>(rng.range(w.k1, w.k2)); k.recs.push_back({q(w.name), std::to_string(w.i), std::to_string(w.j), std::to_string(kk), std::to_string(kk), q(rng.chance(0.8) ? "OPEN" : "SHUT"), "2*", num(diam * (rng.chance(0.5) ? 1.0 : 1.5)), "1*", num(std::round(rng.real(0, 4) * 4) / 4)}); }
+                    else if (v < 0.75) { k.name = "COMPDAT"; const int kk = static_cast<int>(rng.range(w.k1, w.k2)); k.recs.push_back({q(w.name), std::to_string(w.i), std::to_string(w.j), std::to_string(kk), std::to_string(kk), q(rng.chance(0.8) || o.stop_safe ? "OPEN" : "SHUT"), "2*", num(diam * (rng.chance(0.5) ? 1.0 : 1.5)), "1*", num(std::round(rng.real(0, 4) * 4) / 4)}); }
                     else if (v < 0.82 && w.kind != "OPROD") { WellDef sw = w; sw.history = false; sw.kind = "OPROD"; k = wcon(sw, "OPEN"); }     // an injector becomes a producer (not the other way round: WELTARG ORAT/LRAT records elsewhere in the deck name producers)
                     else if (v < 0.88 && w.kind == "OPROD") { k.name = "WECON"; k.recs.push_back({q(w.name), num(std::round(rng.real(1, 50))), "1*", num(std::round(rng.real(0.5, 0.95) * 100) / 100), "2*", q("WELL")}); }
                     else { k.name = "WTEST"; k.recs.push_back({q(w.name), num(static_cast<double>(rng.range(1, 30))), q("PE")}); }
